@@ -623,9 +623,39 @@ class Interp:
                 if base.kind == "tuple" and isinstance(node.slice, ast.Constant) and isinstance(node.slice.value, int) and -len(base.val) <= node.slice.value < len(base.val):
                     out.append((s, base.val[node.slice.value]))
                     continue
+                if self.rule.wants_subscript:
+                    # term-building rules: evaluate the index / slice bounds and let the rule compose the result
+                    if isinstance(node.slice, ast.Slice):
+                        parts = [node.slice.lower, node.slice.upper, node.slice.step]
+                    else:
+                        parts = [node.slice]
+                    cur = [(s, [])]
+                    for e in parts:
+                        nxt = []
+                        for s1, acc in cur:
+                            if e is None:
+                                nxt.append((s1, acc + [const(None)]))
+                            else:
+                                vs, r = self.eval(s1, e)
+                                raises += r
+                                nxt += [(s2, acc + [av]) for s2, av in vs]
+                        cur = nxt
+                    for s1, acc in cur:
+                        r = self.rule.subscript(self, s1, node, base, acc, isinstance(node.slice, ast.Slice))
+                        if r is None:
+                            out.append((s1, UNK))
+                        elif isinstance(r, list):
+                            for o in r:
+                                if o.kind == "normal":
+                                    out.append((o.st, o.val if o.val is not None else UNK))
+                                else:
+                                    raises.append(o)
+                        else:
+                            out.append((s1, r))
+                    continue
                 out.append((s, UNK))
             return out, raises
-        if isinstance(node, ast.JoinedStr):
+        if isinstance(node, ast.JoinedStr) and not self.rule.wants_compose:
             return [(st, AV("unk", truth=None, none=False))], []
         if isinstance(node, ast.Dict) and all(isinstance(k, ast.Constant) for k in node.keys if k is not None) and None not in node.keys:
             cur, raises = [(st, {})], []
@@ -642,17 +672,23 @@ class Interp:
             if r is not None:
                 return r
             return [(st, AV("unk", none=False))], []
-        # everything else: evaluate children for effects, result unknown
-        cur, raises = [st], []
+        # everything else: evaluate children for effects, result unknown (or composed by a term-building rule)
+        cur, raises = [(st, [])], []
         for ch in ast.iter_child_nodes(node):
             if isinstance(ch, ast.expr):
                 nxt = []
-                for s in cur:
-                    vals, r = self.eval(s, ch)
+                for s, acc in cur:
+                    vals, r = self.eval(s, ch.value if isinstance(ch, (ast.Starred, ast.FormattedValue)) else ch)
                     raises += r
-                    nxt += [s2 for s2, _ in vals]
+                    nxt += [(s2, acc + [(ch, av)]) for s2, av in vals]
                 cur = nxt
-        return [(s, UNK) for s in cur], raises
+        if self.rule.wants_compose:
+            out = []
+            for s, acc in cur:
+                r = self.rule.compose(self, s, node, acc)
+                out.append((s, r if r is not None else UNK))
+            return out, raises
+        return [(s, UNK) for s, _ in cur], raises
 
     def eval_args(self, st, node: ast.Call):
         cur, raises = [(st, [], {})], []
@@ -1156,6 +1192,15 @@ class Interp:
 
 
 class BaseRule:
+    wants_subscript = False  # rule.subscript(it, st, node, base, parts, is_slice) composes non-dict subscripts
+    wants_compose = False  # rule.compose(it, st, node, [(child_node, av)...]) composes List/BinOp/JoinedStr/... values
+
+    def subscript(self, it, st, node, base, parts, is_slice):
+        return None
+
+    def compose(self, it, st, node, children):
+        return None
+
     def global_value(self, it, name):
         return None
 
